@@ -227,7 +227,11 @@ def common(ctx, prop, opts_list, cfgs, quick_n):
     drift = 0
     for oi, opts in enumerate(opts_list):
         opts = dict(opts, prop=prop)
-        for (beh, inpl), (viols, st) in run_histories(ctx, behs, opts):
+        todo = behs
+        if opts.get("sample") and ctx.replay_only is None and len(behs) > opts["sample"]:
+            # a secondary configuration (e.g. the compressed cache) replays a seeded sample of the same histories
+            todo = random.Random(ctx.seed + oi).sample(behs, opts["sample"])
+        for (beh, inpl), (viols, st) in run_histories(ctx, todo, opts):
             key = json.dumps([beh, oi, inpl], sort_keys=True)
             ctx.count(key, nontrivial=nontrivial(beh),
                       sample=dict(options=opts, trace=st["trace"]) if nontrivial(beh) and len(st["trace"]) > 4 else None)
@@ -285,7 +289,7 @@ def run_c02(ctx):
     cfgs = [("GEN_Incremental_cache1.cfg", {}, True), ("GEN_Incremental_cache.cfg", {}, False)]
     if not ctx.quick:
         cfgs = [("GEN_Incremental_cache1.cfg", {}, True), ("GEN_Incremental_cache.cfg", {}, False)]
-    common(ctx, "C02", [dict(cache=True, compress=False), dict(cache=True, compress=True)], cfgs, quick_n=40)
+    common(ctx, "C02", [dict(cache=True, compress=False), dict(cache=True, compress=True, sample=150 if ctx.quick else 3000)], cfgs, quick_n=40)
 
 
 CLAIM03 = dict(
